@@ -394,4 +394,146 @@ theorem ownC_reject {roots : List Nat} {cs cs' : List Core} {d : Nat} {e : Nat} 
       · exact Or.inl h
       · exact Or.inr ⟨q, j, ch, by rw [u.rqs]; exact hq, rest⟩
 
+/-! ### a fresh request is appended -/
+
+theorem AppUpd.fwd {cs cs' : List Core} {p : Nat} {r : Req} (u : AppUpd cs cs' p r) : Fwd cs cs' := by
+  intro c i y hy
+  have hne : ¬ (c = p ∧ i = (cs.getD p {}).reqs.length) := by
+    rintro ⟨rfl, rfl⟩; rw [u.idxNone] at hy; cases hy
+  exact ⟨y, by rw [u.other c i hne]; exact hy, rfl, rfl, Nat.le_refl _, Nat.le_refl _⟩
+
+theorem AppUpd.back {cs cs' : List Core} {p : Nat} {r : Req} (u : AppUpd cs cs' p r) {c i : Nat} {x : Req}
+    (hx : rq cs' c i = some x) : (c = p ∧ i = (cs.getD p {}).reqs.length ∧ x = r) ∨ rq cs c i = some x := by
+  by_cases h : c = p ∧ i = (cs.getD p {}).reqs.length
+  · obtain ⟨rfl, rfl⟩ := h
+    rw [u.new] at hx; cases hx
+    exact Or.inl ⟨rfl, rfl, rfl⟩
+  · rw [u.other c i h] at hx; exact Or.inr hx
+
+theorem ownC_append {roots : List Nat} {cs cs' : List Core} {p : Nat} {r : Req} (o : OwnC roots cs) (u : AppUpd cs cs' p r)
+    (h0 : r.rc = 0 ∧ r.jc = 0)
+    (hU : r.isUser = true → r.chain < cs.length ∧ (∀ c i y, rq cs c i = some y → y.isUser = true → y.chain ≠ r.chain) ∧
+      r.chain ∉ roots ∧ Pending cs r.chain)
+    (hC : r.isChainer = true → r.chain < cs.length ∧ (∀ c i y, rq cs c i = some y → y.isChainer = true → y.chain ≠ r.chain) ∧
+      (∃ c i y, rq cs c i = some y ∧ y.isUser = true ∧ y.chain = r.chain ∧ y.retPromise = true ∧ 1 ≤ y.rc)) :
+    OwnC roots cs' := by
+  have fwd := u.fwd
+  refine ⟨?_, ?_, ?_, ?_, ?_, ?_, ?_, ?_, ?_⟩
+  · intro c i x hx hs
+    rw [u.len]
+    rcases u.back hx with ⟨_, _, rfl⟩ | hx
+    · unfold Req.settler at hs
+      cases hu : x.isUser with
+      | true => exact (hU hu).1
+      | false => rw [hu] at hs; simp only [Bool.false_or] at hs; exact (hC hs).1
+    · exact o.bound c i x hx hs
+  · intro c1 i1 x1 c2 i2 x2 h1 h2 hu1 hu2 hcc
+    rcases u.back h1 with ⟨e1, e1', rfl⟩ | h1
+    · rcases u.back h2 with ⟨e2, e2', rfl⟩ | h2
+      · exact ⟨by rw [e1, e2], by rw [e1', e2']⟩
+      · exact absurd hcc.symm ((hU hu1).2.1 c2 i2 x2 h2 hu2)
+    · rcases u.back h2 with ⟨e2, e2', rfl⟩ | h2
+      · exact absurd hcc ((hU hu2).2.1 c1 i1 x1 h1 hu1)
+      · exact o.uniqU c1 i1 x1 c2 i2 x2 h1 h2 hu1 hu2 hcc
+  · intro c1 i1 x1 c2 i2 x2 h1 h2 hu1 hu2 hcc
+    rcases u.back h1 with ⟨e1, e1', rfl⟩ | h1
+    · rcases u.back h2 with ⟨e2, e2', rfl⟩ | h2
+      · exact ⟨by rw [e1, e2], by rw [e1', e2']⟩
+      · exact absurd hcc.symm ((hC hu1).2.1 c2 i2 x2 h2 hu2)
+    · rcases u.back h2 with ⟨e2, e2', rfl⟩ | h2
+      · exact absurd hcc ((hC hu2).2.1 c1 i1 x1 h1 hu1)
+      · exact o.uniqC c1 i1 x1 c2 i2 x2 h1 h2 hu1 hu2 hcc
+  · intro q j ch hch hcc
+    have key : ∃ c i y, rq cs c i = some y ∧ y.isUser = true ∧ y.chain = ch.chain ∧ y.retPromise = true ∧ 1 ≤ y.rc := by
+      rcases u.back hch with ⟨_, _, rfl⟩ | hch
+      · exact (hC hcc).2.2
+      · exact o.prov q j ch hch hcc
+    obtain ⟨c0, i0, y, hy, hu, hc, hp, h1⟩ := key
+    obtain ⟨x0, hx0, hxk, hxc, hxr, _⟩ := fwd c0 i0 y hy
+    exact ⟨c0, i0, x0, hx0, by rw [isUser_congr hxk]; exact hu, by rw [hxc, hc], by rw [retPromise_congr hxk]; exact hp, by omega⟩
+  · intro d hd c i x hx hu
+    rcases u.back hx with ⟨_, _, rfl⟩ | hx
+    · intro e; exact (hU hu).2.2.1 (e ▸ hd)
+    · exact o.noHolder d hd c i x hx hu
+  · intro c i x hx hs h1
+    rcases u.back hx with ⟨_, _, rfl⟩ | hx
+    · omega
+    · exact fulfilled_of_st (u.st c) (o.rcOK c i x hx hs h1)
+  · intro c i x hx hs h1
+    rcases u.back hx with ⟨_, _, rfl⟩ | hx
+    · omega
+    · exact rejOK_fwd (u.st c) fwd (o.jcOK c i x hx hs h1)
+  · intro c i x hx hu hf
+    rcases u.back hx with ⟨_, _, rfl⟩ | hx
+    · exact absurd (fulfilled_of_st (u.st _).symm hf) (fun h => pending_not_fulfilled (hU hu).2.2.2 h)
+    · rcases o.spentF c i x hx hu (fulfilled_of_st (u.st _).symm hf) with h | ⟨q, j, ch, hq, hcc, hcd, h1⟩
+      · exact Or.inl h
+      · obtain ⟨z, hz, hzk, hzc, hzr, _⟩ := fwd q j ch hq
+        exact Or.inr ⟨q, j, z, hz, by rw [isChainer_congr hzk]; exact hcc, by rw [hzc, hcd], by omega⟩
+  · intro c i x hx hu hf
+    rcases u.back hx with ⟨_, _, rfl⟩ | hx
+    · exact absurd (rejected_of_st (u.st _).symm hf) (fun h => pending_not_rejected (hU hu).2.2.2 h)
+    · rcases o.spentR c i x hx hu (rejected_of_st (u.st _).symm hf) with h | ⟨q, j, ch, hq, hcc, hcd, h1⟩
+      · exact Or.inl h
+      · obtain ⟨z, hz, hzk, hzc, _, hzj⟩ := fwd q j ch hq
+        exact Or.inr ⟨q, j, z, hz, by rw [isChainer_congr hzk]; exact hcc, by rw [hzc, hcd], by omega⟩
+
+/-! ### a new core -/
+
+theorem rq_append_core (cs : List Core) (x : Core) (hx : x.reqs = []) (c i : Nat) : rq (cs ++ [x]) c i = rq cs c i := by
+  unfold rq
+  by_cases hc : c < cs.length
+  · simp [List.getD, List.getElem?_append_left hc]
+  · by_cases hc' : c = cs.length
+    · subst hc'; simp [List.getD, hx]
+    · have h1 : (cs ++ [x])[c]? = none := List.getElem?_eq_none (by rw [List.length_append, List.length_singleton]; omega)
+      have h2 : cs[c]? = none := List.getElem?_eq_none (by omega)
+      simp [List.getD, h1, h2]
+
+theorem stOf_append_core (cs : List Core) (x : Core) (c : Nat) (hc : c < cs.length) : stOf (cs ++ [x]) c = stOf cs c := by
+  unfold stOf; simp [List.getD, List.getElem?_append_left hc]
+
+theorem stOf_append_new (cs : List Core) (x : Core) : stOf (cs ++ [x]) cs.length = x.st := by
+  unfold stOf; simp [List.getD]
+
+theorem ownC_newCore {roots : List Nat} {cs : List Core} (x : Core) (hx : x.reqs = []) (o : OwnC roots cs) :
+    OwnC (cs.length :: roots) (cs ++ [x]) := by
+  have hrq := rq_append_core cs x hx
+  have hlt : ∀ {c i r}, rq cs c i = some r → c < cs.length := fun h => rq_some_lt h
+  have fwd : Fwd cs (cs ++ [x]) := by
+    intro c i y hy; exact ⟨y, by rw [hrq]; exact hy, rfl, rfl, Nat.le_refl _, Nat.le_refl _⟩
+  refine ⟨?_, ?_, ?_, ?_, ?_, ?_, ?_, ?_, ?_⟩
+  · intro c i r hr hs; rw [hrq] at hr
+    have := o.bound c i r hr hs
+    rw [List.length_append, List.length_singleton]; omega
+  · intro c1 i1 x1 c2 i2 x2 h1 h2; rw [hrq] at h1 h2; exact o.uniqU c1 i1 x1 c2 i2 x2 h1 h2
+  · intro c1 i1 x1 c2 i2 x2 h1 h2; rw [hrq] at h1 h2; exact o.uniqC c1 i1 x1 c2 i2 x2 h1 h2
+  · intro q j ch h hc; rw [hrq] at h
+    obtain ⟨c0, i0, r0, h0, rest⟩ := o.prov q j ch h hc
+    exact ⟨c0, i0, r0, by rw [hrq]; exact h0, rest⟩
+  · intro d hd c i r hr hu; rw [hrq] at hr
+    rcases List.mem_cons.mp hd with rfl | hd
+    · have := o.bound c i r hr (user_settler hu); omega
+    · exact o.noHolder d hd c i r hr hu
+  · intro c i r hr hs h1; rw [hrq] at hr
+    exact fulfilled_of_st (stOf_append_core cs x c (hlt hr)) (o.rcOK c i r hr hs h1)
+  · intro c i r hr hs h1; rw [hrq] at hr
+    exact rejOK_fwd (stOf_append_core cs x c (hlt hr)) fwd (o.jcOK c i r hr hs h1)
+  · intro c i r hr hu hf; rw [hrq] at hr
+    have hb := o.bound c i r hr (user_settler hu)
+    rcases o.spentF c i r hr hu (fulfilled_of_st (stOf_append_core cs x _ hb).symm hf) with h | ⟨q, j, ch, hq, rest⟩
+    · exact Or.inl h
+    · exact Or.inr ⟨q, j, ch, by rw [hrq]; exact hq, rest⟩
+  · intro c i r hr hu hf; rw [hrq] at hr
+    have hb := o.bound c i r hr (user_settler hu)
+    rcases o.spentR c i r hr hu (rejected_of_st (stOf_append_core cs x _ hb).symm hf) with h | ⟨q, j, ch, hq, rest⟩
+    · exact Or.inl h
+    · exact Or.inr ⟨q, j, ch, by rw [hrq]; exact hq, rest⟩
+
+/-- the same with the roots unchanged (the new core is a derived one) -/
+theorem ownC_newCore' {roots : List Nat} {cs : List Core} (x : Core) (hx : x.reqs = []) (o : OwnC roots cs) :
+    OwnC roots (cs ++ [x]) := by
+  have h := ownC_newCore x hx o
+  exact { h with noHolder := fun d hd => h.noHolder d (List.mem_cons_of_mem _ hd) }
+
 end Pistache.Promise
